@@ -1337,9 +1337,16 @@ public:
       return;
     }
 
-    linear_expression_t e(x);
-    term_id_t tx(build_linexpr(e));
-    rebind_var(y, tx);
+    // y must be a copy of x that is not related to x. Binding y to
+    // the term of x would add the equality x == y. The only thing
+    // about x that can be kept for y is a constant value.
+    auto it = m_var_map.find(x);
+    if (it != m_var_map.end() &&
+        m_ttbl.get_term_ptr(it->second)->kind() == term::TERM_CONST) {
+      rebind_var(y, it->second);
+    } else {
+      *this -= y;
+    }
     check_terms(__LINE__);
   }
 
